@@ -16,6 +16,24 @@ VERSIONS = ["23", "5", "5.11", "7.2", "Rawhide", "20160101", "1.20151231", "1234
             "1-2", "0", "5.0.20200101"]
 VARIANT_SETS = [[], ["Server"], ["Client"], ["Server", "Client"], ["Workstation"], ["Client", "Aaa"], ["Server", "Z"], ["Everything"]]
 LEGACY_VERSIONS = ["0.0", "0.1", "0.2"]
+# --- boundary pools (docs/GENERATOR_AUDIT.md A1-A9): each value once per run, other attributes at their defaults.  None of them
+# contains a line feed, so C15_decode_create_partial requires the round trip of the real code for every one of them.
+SHORT_POOL = ["", " ", "a b", " f", "f ", "\t", "\u00a0", "-", "--", "a--b", "-a", "a-", "a.b", "a:b", "a/b", "a@b,c;d=e#f%g[h]i\"j'k\\l", "None", "null",
+              "0", "False", "1.0", "\u00fc", "n\u0663", "\U0001F600", "s" * 300, "F", "Fedora-Server", "fedora", "FEDORA", "f23", "23", "20160101",
+              "f-20160101", "x.n", "x.t.1", "RHEL", "RHE", "RHELS", "rhel", "Rhel", "RHEL-5"]
+VERSION_POOL = ["", " ", "1 0", "\t", "-", "--", "1-2", "1--2", "-1", "1-", ".", "..", "1..2", "1.", ".1", "1:2", "1/2", "a@b,c;d=e#f%g[h]i\"j'k\\l", "None",
+                "null", "0", "False", "1.0", "\u0663", "\u0660\u0661\u0662\u0663\u0664\u0665\u0666\u0667", "\uff11\uff12", "\U0001F600",
+                "9" * 300, "20160101", "20160101.n.3", "12345678-87654321", "1-20160101", "123456789012", "1234567", "99999999.t.99",
+                "5", "5.", "5.11", "5.0.1", "50", "5a", "05", "Rawhide", "rawhide-20160101"]
+TYPE_POOL_EXTRA = [None, "", "GA", "Ga", "gA", "gaa", "g", "Updates", "UPDATES-TESTING", "EUS", "E4S"]
+VARIANT_POOL = [[], ["Server"], ["Client"], ["Server", "Client"], ["Client", "Server"], ["Workstation"], ["Client", "Aaa"], ["Server", "Z"],
+                ["Everything"], ["Clients"], ["Clien"], ["Servers"], ["Serve"], ["client"], ["server"], ["0", "Client"], ["Client", "Client2"],
+                ["ServerX", "Server"], ["B", "A", "C"], ["a", "Server"]]
+DATE_POOL = ["20160101", "00000000", "99999999", "19991231", "00000001", "10000000", "12345678", "30001231", "07040704",
+             "\u0662\u0660\u0661\u0666\u0660\u0661\u0660\u0661", "\uff12\uff10\uff11\uff16\uff10\uff11\uff10\uff11"]
+RESPIN_POOL = [0, 1, 2, 9, 10, 11, 99, 100, 12345, 10 ** 6, 10 ** 7 - 1]
+REL_BASE = {"short": "f", "version": "23", "type": "ga"}
+BP_NONE = {"short": None, "version": None, "type": None}
 
 
 def generated():
@@ -68,6 +86,28 @@ def decode_expect(a):
     return {"ok": [a["date"], typ, a["respin"] or 0]}
 
 
+def reference_id(a):
+    """the id the documentation describes, written independently of the model and of the code's string formatting:
+    short-version[-type] [-bpshort-bpversion[-bptype] if layered] [-Client|-Server: the RHEL-5 rule] -date[.suffix].respin.
+    RHEL-5 rule (the library's documented hack: 'there are 2 RHEL 5 composes -> need to add Server or Client variant to compose
+    ID'): release AND base product are both short 'RHEL' with major version '5', and the alphabetically first top-level
+    variant is Client or Server."""
+    suffix = {"production": "", "nightly": ".n", "test": ".t", "ci": ".ci", "development": ".d"}.get(a["type"])
+    if suffix is None:
+        return None
+    def major(v):
+        return None if v is None else v.split(".")[0]
+    r, b = a["release"], a["base_product"]
+    out = want_prefix(a)
+    if a["is_layered"]:
+        out += "-" + want_prefix({"release": b})
+    if r["short"] == "RHEL" and major(r["version"]) == "5" and b["short"] == "RHEL" and major(b["version"]) == "5" and a["variants"]:
+        first = sorted(a["variants"])[0]
+        if first in ("Client", "Server"):
+            out += "-" + first
+    return out + "-%s%s.%d" % (a["date"], suffix, a["respin"])
+
+
 def allowed_ids(a):
     """the documented shape of a compose id, written from the property text / doc (not from the code):
     short-version[-type] [-bpshort-bpversion[-bptype]] [-Client|-Server] -date[.suffix].respin"""
@@ -101,7 +141,10 @@ class C15(Prop):
             "the spelled-out name of every compose type, their prefixes/abbreviations and upper-case forms (round-robin; lower-case "
             "words outside the documented six must raise ValueError, also inside a legacy document), missing respin, several "
             "8-digit runs, 9+ digit runs, Unicode digits, line feeds; legacy: composeinfo documents of version 0.0/0.1/0.2 (date, type, "
-            "respin only inside the id) loaded with ComposeInfo.loads; every case also through the Lean model (correspondence). "
+            "respin only inside the id; a share also carries disagreeing date/respin/type keys) loaded with ComposeInfo.loads; boundary "
+            "pools (docs/audit_C15.md): every value of SHORT/VERSION/TYPE/VARIANT/DATE/RESPIN pools once per run, the RHEL-5 literals "
+            "with extensions and prefixes x 20 variant sets; the created id must EQUAL an independently written reference id; "
+            "every case also through the Lean model (correspondence). "
             "non-trivial = distinct case on which the real code returned a value")
     assumptions = ["CPython `re` is modelled by the list-of-successes engine (validated differentially on every case)",
                    "str.lower() is modelled for ASCII letters only; release types are generated in ASCII",
@@ -195,12 +238,53 @@ class C15(Prop):
         if c["respin"] >= 10 ** 7 and rng.random() < 0.7:
             c["respin"] = rng.randrange(10 ** 6)
         c["spelling"] = rng.choice(["short", "long"])
+        if i % 3 == 1:        # an old document that ALSO carries date/respin keys, disagreeing with the id: the id is authoritative below 0.3
+            c["stored_date"] = rng.choice(["19990101", "2016", "", None])
+            c["stored_respin"] = rng.choice([0, 77, "3", None])
         if i % 5 == 4:        # a legacy id carrying an undocumented lower-case suffix must be refused on load
             pool = [w for w in unknown_pool(self.tables()["COMPOSE_TYPES"]) if is_lower_word(w)]
             c["unknown_suffix"] = pool[(i // 5) % len(pool)]
             if c["respin"] >= 10 ** 7:
                 c["respin"] = 3
         return {"op": "legacy", "args": c}
+
+    def pool_cases(self):
+        """every boundary value of every attribute once, the others at their defaults; every enumeration value in every position"""
+        t = self.tables()
+        ctypes = list(t["COMPOSE_TYPES"])
+        rtypes = list(t["RELEASE_TYPES"]) + TYPE_POOL_EXTRA
+        n = [0]
+        def mk(**kw):
+            n[0] += 1
+            a = {"release": dict(REL_BASE), "is_layered": False, "base_product": dict(BP_NONE), "variants": [], "date": "20160101",
+                 "type": ctypes[n[0] % len(ctypes)], "respin": RESPIN_POOL[n[0] % len(RESPIN_POOL)]}
+            a.update(kw)
+            return {"op": "create_decode", "args": a}
+        for ct in ctypes:                                   # every compose type x every boundary respin
+            for r in RESPIN_POOL:
+                yield mk(type=ct, respin=r)
+        for v in SHORT_POOL:
+            yield mk(release=dict(REL_BASE, short=v))
+            yield mk(is_layered=True, base_product={"short": v, "version": "7", "type": "ga"})
+        for v in VERSION_POOL:
+            yield mk(release=dict(REL_BASE, version=v))
+            yield mk(is_layered=True, base_product={"short": "rhel", "version": v, "type": "eus"})
+        for ty in rtypes:                                   # every release type / base-product type, incl. the last table entry
+            yield mk(release=dict(REL_BASE, type=ty))
+            yield mk(is_layered=True, base_product={"short": "rhel", "version": "7", "type": ty})
+            yield mk(release=dict(REL_BASE, type=ty), is_layered=True, base_product={"short": "rhel", "version": "7", "type": ty})
+        for d in DATE_POOL:
+            yield mk(date=d)
+        # the literals of the RHEL-5 rule, each with an extension and a proper prefix, in every combination, layered or not
+        for vs in VARIANT_POOL:
+            for rs, rv, bs, bv in (("RHEL", "5", "RHEL", "5"), ("RHEL", "5.11", "RHEL", "5.0"), ("RHEL", "5.", "RHEL", "5"),
+                                   ("RHE", "5", "RHEL", "5"), ("RHELS", "5", "RHEL", "5"), ("rhel", "5", "RHEL", "5"),
+                                   ("RHEL", "50", "RHEL", "5"), ("RHEL", "5a", "RHEL", "5"), ("RHEL", "05", "RHEL", "5"), ("RHEL", "", "RHEL", "5"),
+                                   ("RHEL", "5", "RHE", "5"), ("RHEL", "5", "RHELS", "5"), ("RHEL", "5", "rhel", "5"), ("RHEL", "5", "RHEL", "55"),
+                                   ("RHEL", "5", "RHEL", "6"), ("RHEL", "6", "RHEL", "5"), ("RHEL", "5", None, None), ("f", "5", "f", "5")):
+                for lay in ((False, True) if bs is not None else (False,)):
+                    yield mk(release={"short": rs, "version": rv, "type": "ga"}, base_product={"short": bs, "version": bv, "type": "ga" if bs else None},
+                             is_layered=lay, variants=vs)
 
     def cases(self, rng, tier, budget):
         self._f10_left = 24
@@ -220,6 +304,8 @@ class C15(Prop):
         for w in unknown_pool(self.tables()["COMPOSE_TYPES"]):
             if is_lower_word(w):
                 yield {"op": "decode", "args": {"prefix": "f-23-", "date": "20160101", "suffix": w, "respin": 2}}
+        for c in self.pool_cases():
+            yield c
         for i in range(budget):
             k = i % 6          # three streams, each with its own running index (round-robin over the tables inside)
             if k in (0, 1, 2):
@@ -272,7 +358,9 @@ class C15(Prop):
         if case["op"] == "purity":
             return purity_probe(pci.get_date_type_respin, a["s"])
         if case["op"] == "create_decode":
-            out = {"id": guarded(lambda: self.build_ci(a).create_compose_id()), "decoded": None, "validates": None}
+            ci_obj = self.build_ci(a)
+            out = {"id": guarded(ci_obj.create_compose_id), "decoded": None, "validates": None}
+            out["_again"] = guarded(ci_obj.create_compose_id)          # same object, second call (B1/B2)
             if "ok" in out["id"]:
                 cid = out["id"]["ok"]
                 out["decoded"] = guarded(pci.get_date_type_respin, cid)
@@ -283,8 +371,11 @@ class C15(Prop):
             return out
         if case["op"] == "legacy":
             cid = self.legacy_id(a)
+            comp = {"id": cid, "type": a["stored_type"]}
+            if "stored_date" in a:
+                comp["date"] = a["stored_date"]; comp["respin"] = a["stored_respin"]
             doc = {"header": {"version": a["header_version"]},
-                   "payload": {"compose": {"id": cid, "type": a["stored_type"]},
+                   "payload": {"compose": comp,
                                "product": {"name": "Name", "version": "1.0", "short": "n"}, "variants": {}}}
             def load():
                 ci = pci.ComposeInfo(); ci.loads(json.dumps(doc))
@@ -309,6 +400,8 @@ class C15(Prop):
     def compare(self, case, real_out, model_out):
         if case["op"] == "purity":
             return Prop.compare(self, case, real_out["first"], model_out)
+        if case["op"] == "create_decode":
+            return Prop.compare(self, case, dict((k, v) for k, v in real_out.items() if not k.startswith("_")), model_out)
         if case["op"] == "legacy":
             # loading also validates the decoded fields; compare when both sides produced values
             ld = real_out["loaded"]
@@ -346,6 +439,12 @@ class C15(Prop):
             ok_ids = allowed_ids(a)
             if ok_ids is not None and cid not in ok_ids:
                 return {"observed": {"id": cid}, "required": {"one of": ok_ids}, "kind": "id-shape"}
+            ref = reference_id(a)
+            if ref is not None and cid != ref:
+                return {"observed": {"id": cid}, "required": {"id": ref}, "kind": "id-differs-from-documented-format"}
+            if real_out.get("_again") != real_out["id"]:
+                return {"observed": {"first": real_out["id"], "second call on the same object": real_out.get("_again")},
+                        "required": "create_compose_id is repeatable", "kind": "create-not-repeatable"}
             if real_out["validates"] is not True:
                 return {"observed": {"id": cid, "validates": real_out["validates"]}, "required": "passes Compose._validate_id", "kind": "id-not-valid"}
             want = {"ok": [a["date"], a["type"], a["respin"]]}
